@@ -281,7 +281,7 @@ def fees(ctx, prog, ev):
            "total output sum = Σ (amount + fee) over all outputs", func=ts.fi.qualname)
     ea = ctx.fa("lbry.wallet.transaction.OutputEffectiveAmountEstimator.__init__")
     t = unparse(ea.node)
-    ok = "self.txi = Input.spend(txo)" in t and "self.fee: int = self.txi.get_fee(ledger)" in t and "self.effective_amount: int = txo.amount - self.fee" in t
+    ok = "self.txi = Input.spend(txo)" in t and "self.fee = self.txi.get_fee(ledger)" in t and "self.effective_amount = txo.amount - self.fee" in t
     ctx.ob("C03-D5/DEP", ok, ea.site(), "a candidate's effective amount = amount − fee of the input that would spend it", func=ea.fi.qualname)
     bs = ctx.fa(f"{TX}.base_size")
     r = R.single_return_value(bs)
@@ -369,6 +369,30 @@ def selection_complete(ctx, prog):
         (f"return await self.db.get_spendable_utxos(self, {am} + fee, {fa2}, min_amount=min_amount, fee_per_byte=self.fee_per_byte)", "self.coin_selection_strategy == 'sqlite'",
          "the sqlite strategy selects and reserves inside the database, aiming at deficit + cost of change"),
     ], "funding: ")
+    # the database chooser searches amount windows [floor, floor·m), floor ← floor·m: it makes progress only from a positive floor.  A floor of 0 (the ledger
+    # passes min(amount // 10, 1), which is 0 for a deficit below 10 dewies) keeps every window empty and a funded wallet is refused
+    gr = ctx.fa("lbry.wallet.database.get_and_reserve_spendable_utxos")
+    fl = gr.fi.params()[3]
+    loops = [w for w in gr.stmts(ast.While) if fl in {x.id for x in ast.walk(w.test) if isinstance(x, ast.Name)}]
+    grow = [a for a in gr.stmts(ast.AugAssign) if dotted(a.target) == fl and isinstance(a.op, ast.Mult)]
+    ctx.floor("C03-D6/PROGRESS", "geometric search loop over the floor", min(len(loops), len(grow)), 1, site=gr.site(), func=gr.fi.qualname)
+    for w in loops:
+        pos = False
+        for a in gr.stmts(ast.Assign):
+            if len(a.targets) == 1 and dotted(a.targets[0]) == fl and isinstance(a.value, ast.Call) and call_name(a.value) == "max" and len(a.value.args) == 2:
+                others = [x for x in a.value.args if dotted(x) != fl]
+                if len(others) == 1 and isinstance(others[0], ast.Constant) and type(others[0].value) is int and others[0].value >= 1 and \
+                        any(s_ is a for s_ in gr.fi.node.body) and gr.must_precede(w, lambda n, a=a: n is a) is None:
+                    pos = True
+        if not pos:
+            # or: every caller provably passes a positive floor
+            lg = ctx.fa("lbry.wallet.ledger.Ledger.get_spendable_utxos")
+            ma = [a for a in lg.stmts(ast.Assign) if len(a.targets) == 1 and dotted(a.targets[0]) == "min_amount"]
+            pos = bool(ma) and all(isinstance(a.value, ast.Call) and call_name(a.value) == "max" and any(isinstance(x, ast.Constant) and type(x.value) is int and x.value >= 1 for x in a.value.args)
+                                   for a in ma)
+        ctx.ob("C03-D6/PROGRESS", pos, gr.site(w), f"the search starts from a positive floor (`{fl} = max({fl}, 1)` before the loop, or callers that clamp): 0 · m = 0 never grows",
+               func=gr.fi.qualname, key="C03-D6/PROGRESS|floor-positive", detail="" if pos else "a deficit below 10 dewies reaches the loop with floor 0: every window is [0, 0) and a funded "
+               "wallet is refused with InsufficientFundsError")
     oe = ctx.fa("lbry.wallet.transaction.OutputEffectiveAmountEstimator.__init__")
     t = [f"{norm_text(x.target)} = {norm_text(x.value)}" if isinstance(x, ast.AnnAssign) else norm_text(x) for x in oe.stmts((ast.Assign, ast.AnnAssign))]
     ok = "self.txo = txo" in t and "self.txi = Input.spend(txo)" in t and "self.fee = self.txi.get_fee(ledger)" in t and "self.effective_amount = txo.amount - self.fee" in t
